@@ -24,9 +24,9 @@ ASSUMPTIONS = ['cell strings of amount / position / inventory / cost / dict colu
 
 D = Decimal
 CURS = ['USD', 'EUR', 'ACME', 'BTC']
-KINDS = ['bool', 'int', 'str', 'date', 'dec', 'set', 'amount', 'position', 'inventory', 'object', 'dict']
+KINDS = ['bool', 'int', 'str', 'date', 'dec', 'set', 'amount', 'position', 'inventory', 'object', 'dict', 'cost']
 PYTYPE = {'bool': bool, 'int': int, 'str': str, 'date': datetime.date, 'dec': Decimal, 'set': set, 'amount': amount.Amount,
-          'position': position.Position, 'inventory': inventory.Inventory, 'object': object, 'dict': dict}
+          'position': position.Position, 'inventory': inventory.Inventory, 'object': object, 'dict': dict, 'cost': position.Cost}
 DECS = [D('0'), D('1'), D('-1'), D('12.5'), D('-3.125'), D('1000'), D('0.001'), D('7.50'), D('-120.00'), D('-0.5'), D('99999.9'), D('2E+2'), D('0.000005'),
         D('-0.05'), D('-0.50'), D('0.5'), D('-0.001')]
 
@@ -60,6 +60,11 @@ def gen_value(rng, kind):
             cost = position.Cost(rng.choice([D('10'), D('12.80'), D('0.5')]), 'USD', datetime.date(2020, 1, rng.range(1, 9)),
                                  rng.choice([None, 'lot1', 'a-much-longer-lot-label', 'x']))
         return position.Position(amount.Amount(rng.choice(DECS[:10]), rng.choice(CURS)), cost)
+    if kind == 'cost':
+        # a column of costs: labels of different lengths in any row order, dates, numbers of different widths
+        return position.Cost(rng.choice([D('10'), D('12.80'), D('0.5'), D('1234.5678')]), rng.choice(['USD', 'EUR']),
+                             datetime.date(2020, rng.range(1, 12), rng.range(1, 28)),
+                             rng.choice([None, 'lot1', 'a-much-longer-lot-label', 'x', 'medium-label']))
     if kind == 'inventory':
         inv = inventory.Inventory()
         for _ in range(rng.range(0, 4)):
